@@ -83,33 +83,55 @@ func nameOf(id int) string {
 
 // ---------- changes ----------
 
+// the tree-entry modes a change entry can carry; a change records them as indices into this table
+var modeTab = []filemode.FileMode{filemode.Regular, filemode.Executable, filemode.Symlink, filemode.Deprecated, filemode.Submodule}
+
+func modeCode(m filemode.FileMode) int {
+	for i, x := range modeTab {
+		if x == m {
+			return i
+		}
+	}
+	return -1
+}
+
 type change struct {
 	kind     string // a d m e
 	name     int
 	from, to int // blob indices
+	mf, mt   int // mode (index into modeTab) of the From / To entry
 }
 
+// (a name blob mode) (d name blob mode) (m name from to modeFrom modeTo); the modes may be missing (= regular)
 func (c change) sx() Sx {
 	switch c.kind {
 	case "a":
-		return T("a", I(c.name), I(c.to))
+		return T("a", I(c.name), I(c.to), I(c.mt))
 	case "d":
-		return T("d", I(c.name), I(c.from))
+		return T("d", I(c.name), I(c.from), I(c.mf))
 	case "m":
-		return T("m", I(c.name), I(c.from), I(c.to))
+		return T("m", I(c.name), I(c.from), I(c.to), I(c.mf), I(c.mt))
 	}
 	return T("e")
 }
 
 func parseChange(s Sx) change {
 	a := s.Args()
+	opt := func(i int) int {
+		if i < len(a) {
+			if m := a[i].Int(); m >= 0 && m < len(modeTab) {
+				return m
+			}
+		}
+		return 0
+	}
 	switch s.Tag() {
 	case "a":
-		return change{kind: "a", name: a[0].Int(), to: a[1].Int()}
+		return change{kind: "a", name: a[0].Int(), to: a[1].Int(), mt: opt(2)}
 	case "d":
-		return change{kind: "d", name: a[0].Int(), from: a[1].Int()}
+		return change{kind: "d", name: a[0].Int(), from: a[1].Int(), mf: opt(2)}
 	case "m":
-		return change{kind: "m", name: a[0].Int(), from: a[1].Int(), to: a[2].Int()}
+		return change{kind: "m", name: a[0].Int(), from: a[1].Int(), to: a[2].Int(), mf: opt(3), mt: opt(4)}
 	}
 	return change{kind: "e"}
 }
@@ -122,11 +144,12 @@ type tcase struct {
 	spin    int
 	blobs   []blob
 	changes []change
+	szq     [][2]int64 // pairs of sizes put to the real sizesAreClose (also outside what Consume can reach: 0, 1, < 32, > 2^32)
 }
 
-func entry(name int, h plumbing.Hash) object.ChangeEntry {
+func entry(name int, h plumbing.Hash, mode int) object.ChangeEntry {
 	nm := nameOf(name)
-	return object.ChangeEntry{Name: nm, TreeEntry: object.TreeEntry{Name: filepath.Base(nm), Mode: filemode.Regular, Hash: h}}
+	return object.ChangeEntry{Name: nm, TreeEntry: object.TreeEntry{Name: filepath.Base(nm), Mode: modeTab[mode], Hash: h}}
 }
 
 func run(tc *tcase) Sx {
@@ -155,13 +178,13 @@ func run(tc *tcase) Sx {
 		var ch *object.Change
 		switch c.kind {
 		case "a":
-			ch = &object.Change{To: entry(c.name, tc.blobs[c.to].hash)}
+			ch = &object.Change{To: entry(c.name, tc.blobs[c.to].hash, c.mt)}
 			addC, addH, addI = append(addC, ch), append(addH, tc.blobs[c.to].hash), append(addI, c)
 		case "d":
-			ch = &object.Change{From: entry(c.name, tc.blobs[c.from].hash)}
+			ch = &object.Change{From: entry(c.name, tc.blobs[c.from].hash, c.mf)}
 			delC, delH, delI = append(delC, ch), append(delH, tc.blobs[c.from].hash), append(delI, c)
 		case "m":
-			ch = &object.Change{From: entry(c.name, tc.blobs[c.from].hash), To: entry(c.name, tc.blobs[c.to].hash)}
+			ch = &object.Change{From: entry(c.name, tc.blobs[c.from].hash, c.mf), To: entry(c.name, tc.blobs[c.to].hash, c.mt)}
 		default:
 			ch = &object.Change{}
 		}
@@ -193,35 +216,58 @@ func run(tc *tcase) Sx {
 	seenB := map[[2]int]bool{}
 	seenN := map[[2]int]bool{}
 	lev := api.LevenshteinContext{}
-	for _, d := range delI {
-		bd := blobIdx[tc.blobs[d.from].hash]
-		if cached[bd].Size < api.RenameAnalysisMinimumSize {
-			continue
+	// grouped by blob size (the real sizesAreClose is asked once per pair of sizes), so that the cost is
+	// proportional to the number of size-close pairs and not to #deleted x #added
+	bySize := func(items []change, blobOf func(change) int) (map[int64][]change, []int64) {
+		m := map[int64][]change{}
+		var keys []int64
+		for _, it := range items {
+			sz := cached[blobIdx[tc.blobs[blobOf(it)].hash]].Size
+			if sz < api.RenameAnalysisMinimumSize {
+				continue
+			}
+			if _, ok := m[sz]; !ok {
+				keys = append(keys, sz)
+			}
+			m[sz] = append(m[sz], it)
 		}
-		for _, a := range addI {
-			ba := blobIdx[tc.blobs[a.to].hash]
-			if cached[ba].Size < api.RenameAnalysisMinimumSize {
+		sort.Slice(keys, func(i, j int) bool { return keys[i] < keys[j] })
+		return m, keys
+	}
+	delBy, delSizes := bySize(delI, func(c change) int { return c.from })
+	addBy, addSizes := bySize(addI, func(c change) int { return c.to })
+	for _, sd := range delSizes {
+		for _, sa := range addSizes {
+			if !ra.VerifC13SizesAreClose(sd, sa) {
 				continue
 			}
-			if !ra.VerifC13SizesAreClose(cached[bd].Size, cached[ba].Size) {
-				continue
-			}
-			if !seenB[[2]int{bd, ba}] {
-				seenB[[2]int{bd, ba}] = true
-				x, e1 := ra.VerifC13BlobsAreClose(cached[bd], cached[ba])
-				y, e2 := ra.VerifC13BlobsAreClose(cached[ba], cached[bd])
-				if e1 != nil || e2 != nil {
-					closeTab = append(closeTab, L(I(bd), I(ba), A("err"), A("err")))
-				} else {
-					closeTab = append(closeTab, L(I(bd), I(ba), B(x), B(y)))
+			for _, d := range delBy[sd] {
+				bd := blobIdx[tc.blobs[d.from].hash]
+				for _, a := range addBy[sa] {
+					ba := blobIdx[tc.blobs[a.to].hash]
+					if !seenB[[2]int{bd, ba}] {
+						seenB[[2]int{bd, ba}] = true
+						x, e1 := ra.VerifC13BlobsAreClose(cached[bd], cached[ba])
+						y, e2 := ra.VerifC13BlobsAreClose(cached[ba], cached[bd])
+						if e1 != nil || e2 != nil {
+							closeTab = append(closeTab, L(I(bd), I(ba), A("err"), A("err")))
+						} else {
+							closeTab = append(closeTab, L(I(bd), I(ba), B(x), B(y)))
+						}
+					}
+					if !seenN[[2]int{d.name, a.name}] {
+						seenN[[2]int{d.name, a.name}] = true
+						bn, an := filepath.Base(nameOf(d.name)), filepath.Base(nameOf(a.name))
+						distTab = append(distTab, L(I(d.name), I(a.name), I(lev.Distance(bn, an)), I(lev.Distance(an, bn))))
+					}
 				}
 			}
-			if !seenN[[2]int{d.name, a.name}] {
-				seenN[[2]int{d.name, a.name}] = true
-				bn, an := filepath.Base(nameOf(d.name)), filepath.Base(nameOf(a.name))
-				distTab = append(distTab, L(I(d.name), I(a.name), I(lev.Distance(bn, an)), I(lev.Distance(an, bn))))
-			}
 		}
+	}
+	// the real sizesAreClose on the size pairs of the case (any sizes, also those Consume never compares)
+	szc := make([]Sx, len(tc.szq))
+	for i, q := range tc.szq {
+		szc[i] = B(ra.VerifC13SizesAreClose(q[0], q[1]))
 	}
 	// the permutations the real sort.Sort produces on the real sortableChanges (cross-checks the
 	// driver's port of Go's pdqsort, which the model needs as its sort oracle)
@@ -284,14 +330,14 @@ func run(tc *tcase) Sx {
 				return A("-")
 			}
 			n, ok := nameIdx[e.Name]
-			if !ok {
+			if !ok || e.TreeEntry.Name != filepath.Base(e.Name) || e.Tree != nil {
 				n = -1
 			}
 			b, ok := blobIdx[e.TreeEntry.Hash]
 			if !ok {
 				b = -1
 			}
-			return L(I(n), I(b))
+			return L(I(n), I(b), I(modeCode(e.TreeEntry.Mode)))
 		}
 		outs := make([]Sx, len(out))
 		for i, c := range out {
@@ -300,10 +346,20 @@ func run(tc *tcase) Sx {
 		result = T("res", A("ok"), L(outs...))
 	}
 	return T("obs", T("sizes", sizes...), T("close", closeTab...), T("dist", distTab...),
-		T("sorts", Ints(sortD), Ints(sortA)), csort, result)
+		T("sorts", Ints(sortD), Ints(sortA)), csort, T("szc", szc...), result)
 }
 
+var kindTime = map[string]time.Duration{}
+
 func emit(c *Config, tc *tcase) {
+	t0 := time.Now()
+	defer func() {
+		k := strings.TrimRight(tc.kind, "0123456789")
+		if len(tc.changes) > 20000 {
+			k = fmt.Sprintf("%s-%d-changes-case-%d", tc.kind, len(tc.changes), c.N)
+		}
+		kindTime[k] += time.Since(t0)
+	}()
 	obs := run(tc)
 	na, nd := 0, 0
 	for _, ch := range tc.changes {
@@ -322,8 +378,12 @@ func emit(c *Config, tc *tcase) {
 	for i, ch := range tc.changes {
 		cs[i] = ch.sx()
 	}
+	sq := make([]Sx, len(tc.szq))
+	for i, q := range tc.szq {
+		sq[i] = L(I64(q[0]), I64(q[1]))
+	}
 	c.Emit(T("kind", A(tc.kind)), T("nt", B(na >= 1 && nd >= 1)), T("thr", I(tc.thr)), T("timeout", I64(tc.timeout)),
-		T("procs", I(tc.procs)), T("spin", I(tc.spin)), T("blobs", bl...), T("changes", cs...), obs)
+		T("procs", I(tc.procs)), T("spin", I(tc.spin)), T("blobs", bl...), T("szq", sq...), T("changes", cs...), obs)
 }
 
 func replayCase(s Sx) *tcase {
@@ -352,6 +412,14 @@ func replayCase(s Sx) *tcase {
 	}
 	for _, ch := range get("changes").Args() {
 		tc.changes = append(tc.changes, parseChange(ch))
+	}
+	if f, ok := s.Field("szq"); ok {
+		for _, q := range f.Args() {
+			var x, y int64
+			fmt.Sscan(q.List[0].Atom, &x)
+			fmt.Sscan(q.List[1].Atom, &y)
+			tc.szq = append(tc.szq, [2]int64{x, y})
+		}
 	}
 	return tc
 }
@@ -439,14 +507,33 @@ func exhaustive(c *Config, n int) {
 
 func h3idx(prefix []change) int { return len(prefix) % 3 }
 
-// many identical hashes in adversarial byte patterns, tiny blobs: stage 1 only
-func hashpat(c *Config, maxChanges int) *tcase {
+// a blob of exactly sz bytes (fam < 10): sz < 8 is "z"*sz, otherwise one line "f<fam> l0 <fill*(sz-7)>\n"
+func descOfSize(sz, fam, fill int) blobDesc {
+	if sz < 8 {
+		return blobDesc{fam: fam, nlines: 0, tail: sz, fill: fill}
+	}
+	return blobDesc{fam: fam % 10, nlines: 1, width: sz - 7, fill: fill}
+}
+
+// sizes around the constants of renames.go: empty, below / at / above RenameAnalysisMinimumSize
+var edgeSizes = []int{0, 1, 19, 31, 32, 33, 48}
+
+// many identical hashes in adversarial byte patterns; tiny blobs (stage 1 only) or, when mixed, blobs of
+// 0..48 bytes with any threshold and timeout (what stage 1 leaves over reaches stage 2 and the small list)
+func hashpat(c *Config, maxChanges int, mixed bool) *tcase {
 	r := c.Rng
 	k := 1 + r.Intn(6)
 	hs := patternHashes(c, k)
 	tc := &tcase{kind: "hashpat", thr: 80, timeout: hour, procs: 1 + 15*r.Intn(2)}
+	if mixed {
+		tc.kind, tc.thr, tc.timeout = "hashmix", pickThr(c), pickTimeout(c)
+	}
 	for i, h := range hs {
-		tc.blobs = append(tc.blobs, blob{h, tinyDesc(i)})
+		if mixed {
+			tc.blobs = append(tc.blobs, blob{h, descOfSize(edgeSizes[r.Intn(len(edgeSizes))], i, r.Intn(3))})
+		} else {
+			tc.blobs = append(tc.blobs, blob{h, tinyDesc(i)})
+		}
 	}
 	n := r.Intn(maxChanges + 1)
 	for i := 0; i < n; i++ {
@@ -457,6 +544,163 @@ func hashpat(c *Config, maxChanges int) *tcase {
 			tc.changes = append(tc.changes, change{kind: "d", name: 2*i + 1, from: r.Intn(k)})
 		default:
 			tc.changes = append(tc.changes, change{kind: "m", name: 2*i + 1, from: r.Intn(k), to: r.Intn(k)})
+		}
+	}
+	assignModes(c, tc)
+	return tc
+}
+
+// ---------- tree-entry modes ----------
+
+func pickMode(c *Config) int {
+	// regular, executable and symlink are the common ones
+	switch x := c.Rng.Intn(10); {
+	case x < 3:
+		return 0
+	case x < 6:
+		return 1
+	case x < 8:
+		return 2
+	case x < 9:
+		return 3
+	}
+	return 4
+}
+
+// gives every entry of the case a mode: all regular (what every repository test uses) / every side on its
+// own / one mode on the deleted side and another one on the added side (git mv + chmod, file <-> symlink) /
+// two modes at random
+func assignModes(c *Config, tc *tcase, varied ...bool) {
+	r := c.Rng
+	pol := r.Intn(8)
+	if len(varied) > 0 && varied[0] {
+		// never the all-regular policy (for families with a handful of cases)
+		pol = 2 + r.Intn(6)
+	}
+	m1, m2 := pickMode(c), pickMode(c)
+	for i := range tc.changes {
+		ch := &tc.changes[i]
+		switch {
+		case pol < 2:
+		case pol < 5:
+			ch.mf, ch.mt = pickMode(c), pickMode(c)
+		case pol < 7:
+			ch.mf, ch.mt = m1, m2
+			if r.Intn(8) == 0 {
+				ch.mf, ch.mt = m2, m1
+			}
+		default:
+			two := [2]int{m1, m2}
+			ch.mf, ch.mt = two[r.Intn(2)], two[r.Intn(2)]
+		}
+	}
+}
+
+// all change lists of length <= n over {add, delete} x 2 crossing hashes x {regular, executable}: identical
+// content under equal and under different modes in every multiplicity; the blobs have `size` bytes each
+func exhaustiveModes(c *Config, n int, kind string, size int, timeout int64) {
+	hs := []plumbing.Hash{{}, {}}
+	hs[0][0], hs[0][1] = 1, 0
+	hs[1][0], hs[1][1] = 0, 1
+	blobs := []blob{{hs[0], descOfSize(size, 0, 0)}, {hs[1], descOfSize(size, 1, 4)}}
+	var rec func(prefix []change)
+	rec = func(prefix []change) {
+		tc := &tcase{kind: fmt.Sprintf("%s%d", kind, len(prefix)), thr: 80, timeout: timeout, procs: 1 + 15*(len(prefix)%2), blobs: blobs}
+		tc.changes = append([]change{}, prefix...)
+		emit(c, tc)
+		if len(prefix) == n {
+			return
+		}
+		nm := len(prefix)
+		for h := 0; h < 2; h++ {
+			for m := 0; m < 2; m++ {
+				// names 4k and 4k+1 share the base name (different directories), as a moved file does
+				rec(append(prefix, change{kind: "a", name: 4 * nm, to: h, mt: m}))
+				rec(append(prefix, change{kind: "d", name: 4*nm + 1, from: h, mf: m}))
+			}
+		}
+	}
+	rec(nil)
+}
+
+// identical content moved with and without a mode change, in groups of 0..3 deletions and 0..3 additions per
+// content hash, at every size class (empty, < 32, 32, 33, >= 32 with similar and dissimilar neighbours of about
+// the same size), with every threshold and every timeout; some paths appear on both sides
+func modeCase(c *Config) *tcase {
+	r := c.Rng
+	tc := &tcase{kind: "modes", thr: pickThr(c), timeout: pickTimeout(c), procs: 1 + 15*r.Intn(2), spin: r.Intn(2)}
+	if r.Intn(3) == 0 {
+		tc.timeout = 1
+	}
+	sizes := []int{0, 1, 8, 31, 32, 33, 40, 64, 100, 200}
+	names := r.Perm(64)
+	next := func() int { n := names[0]; names = names[1:]; return n }
+	for g, ng := 0, 1+r.Intn(3); g < ng; g++ {
+		sz := sizes[r.Intn(len(sizes))]
+		bi := len(tc.blobs)
+		h := randHash(c)
+		if g > 0 && r.Intn(3) == 0 {
+			// a hash that differs from the first group's in one byte only
+			h = tc.blobs[0].hash
+			h[r.Intn(20)] ^= byte(1 << uint(r.Intn(8)))
+		}
+		tc.blobs = append(tc.blobs, blob{h, descOfSize(sz, g, 0)})
+		md, ma := pickMode(c), pickMode(c)
+		if r.Intn(4) == 0 {
+			ma = md
+		}
+		nd, na := r.Intn(4), r.Intn(4)
+		if nd+na == 0 {
+			nd, na = 1, 1
+		}
+		for i := 0; i < nd; i++ {
+			m := md
+			if r.Intn(4) == 0 {
+				m = pickMode(c)
+			}
+			tc.changes = append(tc.changes, change{kind: "d", name: next(), from: bi, mf: m})
+		}
+		for i := 0; i < na; i++ {
+			m := ma
+			if r.Intn(4) == 0 {
+				m = pickMode(c)
+			}
+			tc.changes = append(tc.changes, change{kind: "a", name: next(), to: bi, mt: m})
+		}
+		// neighbours of about the same size under other hashes: the same text (hash is a free input), one more
+		// byte, another letter
+		for k := r.Intn(4); k > 0; k-- {
+			d := descOfSize(sz, g, 0)
+			switch r.Intn(3) {
+			case 0:
+				d = descOfSize(sz+1, g, 0)
+			case 1:
+				d = descOfSize(sz, g, 3+r.Intn(3))
+			}
+			tc.blobs = append(tc.blobs, blob{randHash(c), d})
+			if r.Intn(2) == 0 {
+				tc.changes = append(tc.changes, change{kind: "d", name: next(), from: len(tc.blobs) - 1, mf: pickMode(c)})
+			} else {
+				tc.changes = append(tc.changes, change{kind: "a", name: next(), to: len(tc.blobs) - 1, mt: pickMode(c)})
+			}
+		}
+	}
+	if r.Intn(4) == 0 {
+		tc.changes = append(tc.changes, change{kind: "m", name: next(), from: 0, to: r.Intn(len(tc.blobs)), mf: pickMode(c), mt: pickMode(c)})
+	}
+	r.Shuffle(len(tc.changes), func(i, j int) { tc.changes[i], tc.changes[j] = tc.changes[j], tc.changes[i] })
+	if r.Intn(4) == 0 {
+		// the same path deleted and added (a type change reported as a deletion and an addition)
+		var di, ai []int
+		for i, ch := range tc.changes {
+			if ch.kind == "d" {
+				di = append(di, i)
+			} else if ch.kind == "a" {
+				ai = append(ai, i)
+			}
+		}
+		if len(di) > 0 && len(ai) > 0 {
+			tc.changes[ai[r.Intn(len(ai))]].name = tc.changes[di[r.Intn(len(di))]].name
 		}
 	}
 	return tc
@@ -535,6 +779,7 @@ func sim(c *Config, maxChanges int, kind string) *tcase {
 			tc.changes = append(tc.changes, change{kind: "m", name: 100 + i, from: r.Intn(nb), to: r.Intn(nb)})
 		}
 	}
+	assignModes(c, tc)
 	return tc
 }
 
@@ -587,6 +832,25 @@ func thresh(c *Config) *tcase {
 		} else {
 			tc.changes = append(tc.changes, change{kind: "d", name: 2*i + 1, from: r.Intn(nb)})
 		}
+	}
+	assignModes(c, tc)
+	// sizesAreClose itself on sizes Consume never compares (0, 1, below 32) and on large ones (2^31, 2^32, 2^40),
+	// next to the boundary S*thr/100 of this case
+	pool := []int64{0, 1, 2, 31, 32, 33, int64(base), int64(base * eff / 100), int64(base*eff/100 - 1), int64(base*eff/100 + 1),
+		99, 100, 101, 1 << 15, 1 << 16, 1<<31 - 1, 1 << 31, 1 << 32, 1<<32 + 1, 1 << 40}
+	for i := 0; i < 12; i++ {
+		x := pool[r.Intn(len(pool))]
+		y := pool[r.Intn(len(pool))]
+		switch r.Intn(4) {
+		case 0:
+			y = x * int64(eff) / 100
+		case 1:
+			y = x*int64(eff)/100 + int64(r.Intn(3)) - 1
+		}
+		if y < 0 {
+			y = 0
+		}
+		tc.szq = append(tc.szq, [2]int64{x, y})
 	}
 	return tc
 }
@@ -644,14 +908,42 @@ func capCase(c *Config) *tcase {
 		}
 		tc.changes = append(tc.changes, change{kind: "a", name: names[i], to: b})
 	}
+	assignModes(c, tc)
+	if r.Intn(2) == 0 {
+		// a second deleted file whose identical content (same hash, all other candidates dissimilar) is added under
+		// the name that is farthest away, with another mode: more than RenameAnalysisMaxCandidates closer names
+		tc.blobs = append(tc.blobs, blob{randHash(c), blobDesc{fam: 1, nlines: 2, width: width, fill: 13, tail: 1}})
+		d1 := -1
+		for cand := 0; cand < 400 && d1 < 0; cand++ {
+			used := cand == dname
+			for i := 0; i < n; i++ {
+				used = used || names[i] == cand
+			}
+			if !used {
+				d1 = cand
+			}
+		}
+		far, fard := -1, -1
+		for i := 1; i < len(tc.changes); i++ {
+			if tc.changes[i].name == similar {
+				continue
+			}
+			if dd := lev.Distance(filepath.Base(nameOf(d1)), filepath.Base(nameOf(tc.changes[i].name))); dd > fard {
+				far, fard = i, dd
+			}
+		}
+		md := pickMode(c)
+		tc.changes[far].to, tc.changes[far].mt = 4, (md+1+r.Intn(len(modeTab)-1))%len(modeTab)
+		tc.changes = append(tc.changes, change{kind: "d", name: d1, from: 4, mf: md})
+	}
 	if r.Intn(2) == 0 {
 		// the same the other way round: matchB's cap
 		for i := range tc.changes {
 			ch := &tc.changes[i]
 			if ch.kind == "a" {
-				ch.kind, ch.from = "d", ch.to
+				ch.kind, ch.from, ch.mf = "d", ch.to, ch.mt
 			} else {
-				ch.kind, ch.to = "a", ch.from
+				ch.kind, ch.to, ch.mt = "a", ch.from, ch.mf
 			}
 		}
 	}
@@ -665,16 +957,16 @@ func big(c *Config, n int) *tcase {
 	if r.Intn(3) == 0 {
 		tc.timeout = int64(1+r.Intn(20)) * int64(time.Millisecond)
 	}
-	// size classes far apart (x1.5) so that the windows stay small; three blobs per class
+	// size classes far apart (x1.3, not size-close at threshold 80) so that the windows stay small; three blobs per class
 	classes := 12
-	sz := 40
+	sz := 100
 	for k := 0; k < classes; k++ {
 		for v := 0; v < 3; v++ {
 			// additions take variants 0 ('x') and 1 ('b'), deletions variant 2 ('x'): a deleted blob is similar to
 			// the variant-0 additions of its class only, so the second candidate often decides
 			tc.blobs = append(tc.blobs, blob{randHash(c), blobDesc{fam: k, nlines: 1, width: sz - 7 + v, variant: v, fill: (v % 2) * 2}})
 		}
-		sz = sz * 3 / 2
+		sz = sz * 13 / 10
 	}
 	tc.blobs = append(tc.blobs, blob{randHash(c), tinyDesc(1)})
 	for i := 0; i < n; i++ {
@@ -695,12 +987,259 @@ func big(c *Config, n int) *tcase {
 			tc.changes = append(tc.changes, change{kind: "d", name: 2*i + 1, from: b})
 		}
 	}
+	assignModes(c, tc, true)
 	return tc
 }
+
+// ---------- scale: 10^3 .. 10^6 changes ----------
+
+// H distinct hashes that carry the index i in three bytes: "be0" big-endian in bytes 0..2 (hash order = index
+// order), "be17" in bytes 17..19 behind a common 17-byte prefix, "le0" little-endian in bytes 0..2 (hash order
+// crosses index order), "mid" in bytes 9..11, "rand" random bytes
+func scaleHashes(c *Config, H int, shape string) []plumbing.Hash {
+	r := c.Rng
+	var base plumbing.Hash
+	for i := range base {
+		base[i] = byte(r.Intn(256))
+	}
+	hs := make([]plumbing.Hash, H)
+	seen := map[plumbing.Hash]bool{}
+	for i := 0; i < H; i++ {
+		h := base
+		b0, b1, b2 := byte(i>>16), byte(i>>8), byte(i)
+		switch shape {
+		case "be0":
+			h[0], h[1], h[2] = b0, b1, b2
+		case "be17":
+			h[17], h[18], h[19] = b0, b1, b2
+		case "le0":
+			h[0], h[1], h[2] = b2, b1, b0
+		case "mid":
+			h[9], h[10], h[11] = b0, b1, b2
+		default:
+			for {
+				for k := range h {
+					h[k] = byte(r.Intn(256))
+				}
+				if !seen[h] {
+					break
+				}
+			}
+		}
+		seen[h] = true
+		hs[i] = h
+	}
+	return hs
+}
+
+// stage 1 (and the assembly) at scale: n changes over H content hashes, every blob smaller than 32 bytes so that
+// nothing reaches the quadratic stage 2.  order: how the hash index runs along the change list ("asc", "desc",
+// "rand", "per<p>" = index j mod p); split: which changes are additions ("alt" every other one, "halves" the first
+// half, "rand" 60 %, "few" one in 64); one change in 200 is a modification; modes vary.
+func scaleStage1(c *Config, n, H int, shape, order, split string, timeout int64) *tcase {
+	r := c.Rng
+	tc := &tcase{kind: "scale", thr: 80, timeout: timeout, procs: 16}
+	for i, h := range scaleHashes(c, H, shape) {
+		tc.blobs = append(tc.blobs, blob{h, blobDesc{fam: 0, tail: (i * 7) % 32}})
+	}
+	period := 0
+	if strings.HasPrefix(order, "per") {
+		fmt.Sscan(order[3:], &period)
+		if period > H {
+			period = H
+		}
+	}
+	tc.changes = make([]change, 0, n)
+	for j := 0; j < n; j++ {
+		var hi int
+		switch {
+		case order == "asc":
+			hi = int(int64(j) * int64(H) / int64(n))
+		case order == "desc":
+			hi = H - 1 - int(int64(j)*int64(H)/int64(n))
+		case period > 0:
+			hi = j % period
+		default:
+			hi = r.Intn(H)
+		}
+		add := false
+		switch split {
+		case "alt":
+			add = j%2 == 0
+		case "halves":
+			add = j < n/2
+		case "few":
+			add = j%64 == 0
+		default:
+			add = r.Intn(10) < 6
+		}
+		switch {
+		case j%200 == 199:
+			tc.changes = append(tc.changes, change{kind: "m", name: j, from: hi, to: r.Intn(H)})
+		case add:
+			tc.changes = append(tc.changes, change{kind: "a", name: j, to: hi})
+		default:
+			tc.changes = append(tc.changes, change{kind: "d", name: j, from: hi})
+		}
+	}
+	assignModes(c, tc, true)
+	return tc
+}
+
+// stage 2 at scale: n changes in `classes` size classes; threshold 100 makes a class one exact size (32+k bytes,
+// the windows stay small however many changes there are), otherwise the classes are 3 % apart at threshold 99.
+// Per class: blob 0 and blob 1 are the same text under two hashes (deleted as 0, added as 1: found by similarity
+// only), blob 2 is another text of the same size; a few shared hashes (exact renames) and small blobs.
+func scaleStage2(c *Config, n, classes, thr int, timeout int64) *tcase {
+	r := c.Rng
+	tc := &tcase{kind: "scale2", thr: thr, timeout: timeout, procs: 16}
+	sz := 100.0
+	for k := 0; k < classes; k++ {
+		size := 32 + k
+		if thr < 100 {
+			size = int(sz)
+			sz *= 1.03
+		}
+		// the other text differs at its end only (one byte at threshold 100, 2 % of the bytes otherwise): not similar,
+		// and cheap for diffmatchpatch, which strips the common prefix
+		t := 1
+		if thr < 100 {
+			t = size/50 + 1
+		}
+		tc.blobs = append(tc.blobs, blob{randHash(c), descOfSize(size, k, 0)}, blob{randHash(c), descOfSize(size, k, 0)},
+			blob{randHash(c), blobDesc{fam: k % 10, nlines: 1, width: size - 7 - t, tail: t}})
+	}
+	small := len(tc.blobs)
+	tc.blobs = append(tc.blobs, blob{randHash(c), tinyDesc(3)}, blob{randHash(c), tinyDesc(31)})
+	for j := 0; j < n; j++ {
+		k := r.Intn(classes)
+		add := j%2 == 0
+		b := 3 * k
+		switch x := r.Intn(20); {
+		case x < 9 && add:
+			b = 3*k + 1
+		case x < 9:
+			b = 3 * k
+		case x < 16:
+			b = 3*k + 2 // the same hash on both sides: exact renames
+		case x < 18:
+			b = 3*k + r.Intn(2)
+		default:
+			b = small + r.Intn(2)
+		}
+		if add {
+			tc.changes = append(tc.changes, change{kind: "a", name: j, to: b})
+		} else {
+			tc.changes = append(tc.changes, change{kind: "d", name: j, from: b})
+		}
+	}
+	assignModes(c, tc, true)
+	return tc
+}
+
+// exactly `left` changes are left over by stage 1 (no hash is shared), around RenameAnalysisSetSizeLimit: above
+// it the candidate cap drops from 50 to 1.  Every deleted blob has its only similar partner as the third
+// candidate by name distance at least, so the cap decides whether the rename is found.
+func limitCase(c *Config, left int) *tcase {
+	r := c.Rng
+	tc := &tcase{kind: "limit", thr: 80, timeout: hour, procs: 1 + 15*r.Intn(2)}
+	// groups of one deleted and four added files of one size class (x1.3 apart: not size-close at threshold 80)
+	groups := left / 5
+	sz := 100
+	classes := 10
+	for k := 0; k < classes; k++ {
+		tc.blobs = append(tc.blobs, blob{randHash(c), descOfSize(sz, k, 0)}, blob{randHash(c), descOfSize(sz+1, k, 0)},
+			blob{randHash(c), descOfSize(sz, k, 5)}, blob{randHash(c), descOfSize(sz+1, k, 7)})
+		sz = sz * 13 / 10
+	}
+	small := len(tc.blobs)
+	tc.blobs = append(tc.blobs, blob{randHash(c), tinyDesc(5)})
+	nm := 0
+	for g := 0; g < groups; g++ {
+		k := g % classes
+		tc.changes = append(tc.changes, change{kind: "d", name: nm, from: 4 * k})
+		// one similar addition (one byte longer) and three dissimilar ones
+		sim := r.Intn(4)
+		for i := 0; i < 4; i++ {
+			b := 4*k + 2 + r.Intn(2)
+			if i == sim {
+				b = 4*k + 1
+			}
+			tc.changes = append(tc.changes, change{kind: "a", name: nm + 1 + i, to: b})
+		}
+		nm += 5
+	}
+	for len(tc.changes) < left {
+		tc.changes = append(tc.changes, change{kind: "a", name: nm, to: small})
+		nm++
+	}
+	r.Shuffle(len(tc.changes), func(i, j int) { tc.changes[i], tc.changes[j] = tc.changes[j], tc.changes[i] })
+	assignModes(c, tc, true)
+	return tc
+}
+
+func scaleFamily(c *Config) {
+	r := c.Rng
+	ms := int64(time.Millisecond)
+	// quick tier (also after a correspondence break: the search repeats the harness many times)
+	emit(c, scaleStage1(c, 1000, 1, "rand", "rand", "alt", hour))
+	emit(c, scaleStage1(c, 1000, 255, "be0", "asc", "alt", hour))
+	emit(c, scaleStage1(c, 1023, 256, "le0", "desc", "rand", 1))
+	emit(c, scaleStage1(c, 1025, 257, "be17", "per16", "halves", hour))
+	emit(c, scaleStage1(c, 4097, 1000, "mid", "per33", "rand", 0))
+	emit(c, scaleStage1(c, 10000, 2, "rand", "rand", "rand", hour))
+	emit(c, scaleStage1(c, 10000, 5000, "be17", "desc", "alt", hour))
+	emit(c, scaleStage1(c, 10007, 10007, "le0", "asc", "halves", hour))
+	emit(c, scaleStage1(c, 16385, 4096, "be0", "per4095", "few", ms))
+	emit(c, scaleStage1(c, 100003, 4099, "be0", "rand", "rand", hour))
+	for _, left := range []int{api.RenameAnalysisSetSizeLimit - 1, api.RenameAnalysisSetSizeLimit, api.RenameAnalysisSetSizeLimit + 1, api.RenameAnalysisSetSizeLimit + 2} {
+		emit(c, limitCase(c, left))
+	}
+	emit(c, scaleStage2(c, 1000, 40, 100, hour))
+	emit(c, scaleStage2(c, 10000, 400, 100, hour))
+	emit(c, scaleStage2(c, 3000, 60, 99, hour))
+	if c.Tier != "thorough" {
+		return
+	}
+	shapes := []string{"be0", "be17", "le0", "mid", "rand"}
+	orders := []string{"asc", "desc", "rand", "per256", "per255", "per257", "per65536", "per65535", "per65537", "per1024", "per1023"}
+	splits := []string{"alt", "halves", "rand", "few"}
+	for _, n := range []int{1000, 4096, 10000, 32767, 32768, 32769, 65535, 65536, 65537, 100000} {
+		for k := 0; k < 3; k++ {
+			H := []int{1, 2, 16, 255, 256, 257, 1000, 32768, 65535, 65536, 65537, n}[r.Intn(12)]
+			if H > n {
+				H = n
+			}
+			emit(c, scaleStage1(c, n, H, shapes[r.Intn(len(shapes))], orders[r.Intn(len(orders))], splits[r.Intn(len(splits))],
+				[]int64{hour, hour, 1, 0, ms}[r.Intn(5)]))
+		}
+	}
+	emit(c, scaleStage1(c, 100000, 65537, "be0", "rand", "rand", hour))
+	emit(c, scaleStage1(c, 131073, 131073, "le0", "desc", "alt", hour))
+	emit(c, scaleStage1(c, 500000, 1000, "be17", "rand", "rand", hour))
+	emit(c, scaleStage1(c, 1000000, 70000, "be0", "per65537", "alt", hour))
+	emit(c, scaleStage2(c, 30000, 1000, 100, hour))
+	emit(c, scaleStage2(c, 100000, 2000, 100, hour))
+	emit(c, scaleStage2(c, 20000, 150, 99, 20*ms))
+	for _, left := range []int{999, 1000, 1001, 1002, 1003, 2000} {
+		emit(c, limitCase(c, left))
+	}
+}
+
 
 func main() {
 	c := Setup()
 	defer c.Close()
+	if f := os.Getenv("C13_TIMING"); f != "" {
+		// development aid: cumulated wall time per generator family
+		defer func() {
+			var sb strings.Builder
+			for k, v := range kindTime {
+				fmt.Fprintf(&sb, "%s %.2fs\n", k, v.Seconds())
+			}
+			os.WriteFile(f, []byte(sb.String()), 0o644)
+		}()
+	}
 	// RenameAnalysis.Initialize logs every adjusted threshold through a logger it creates on os.Stderr
 	if devnull, err := os.OpenFile(os.DevNull, os.O_WRONLY, 0); err == nil {
 		os.Stderr = devnull
@@ -711,16 +1250,36 @@ func main() {
 		}
 		return
 	}
+	if os.Getenv("C13_ONLY") == "scale" {
+		// development aid: the scale family alone
+		scaleFamily(c)
+		return
+	}
 	if c.Thorough() {
 		exhaustive(c, 5)
 	} else {
 		exhaustive(c, 4)
 	}
-	for i := c.Count(1500, 40000); i > 0; i-- {
-		emit(c, hashpat(c, 40))
+	if c.Thorough() {
+		exhaustiveModes(c, 5, "exm", 5, hour)
+		exhaustiveModes(c, 4, "exmt", 40, 1)
+		exhaustiveModes(c, 4, "exms", 40, 0)
+	} else {
+		exhaustiveModes(c, 4, "exm", 5, hour)
+		exhaustiveModes(c, 3, "exmt", 40, 1)
+		exhaustiveModes(c, 3, "exms", 40, 0)
+	}
+	for i := c.Count(1000, 30000); i > 0; i-- {
+		emit(c, hashpat(c, 40, false))
+	}
+	for i := c.Count(700, 20000); i > 0; i-- {
+		emit(c, hashpat(c, 40, true))
 	}
 	for i := c.Count(200, 5000); i > 0; i-- {
-		emit(c, hashpat(c, 200))
+		emit(c, hashpat(c, 200, false))
+	}
+	for i := c.Count(1200, 30000); i > 0; i-- {
+		emit(c, modeCase(c))
 	}
 	for i := c.Count(1500, 40000); i > 0; i-- {
 		emit(c, sim(c, 24, "sim"))
@@ -740,4 +1299,5 @@ func main() {
 	for i := c.Count(1, 12); i > 0; i-- {
 		emit(c, big(c, 2300))
 	}
+	scaleFamily(c)
 }
